@@ -32,7 +32,6 @@ struct vp_in {
 };
 VP_DECLARE_INPUT();
 
-static struct c17_drv drv;
 static unsigned char store[NMAX + 2 * GUARD];
 static unsigned char old[NMAX + 2 * GUARD];
 static unsigned char stream[NMAX];
@@ -58,16 +57,18 @@ void harness(void)
     unsigned char *const area = store + GUARD;
 
 #if defined(OP_GET) || defined(OP_GET_ATMOST)
+#define drv c17_sd
     /* the source owns the stream; `area` is the caller's destination */
-    c17_drv_init(&drv, in.script, stream, NMAX, true, nn, in.hard_err, 0);
+    c17_src_init(in.script, stream, NMAX, true, nn, in.hard_err, 0);
     Source src;
-    c17_source(&src, &drv, OCTET);
+    c17_source(&src, OCTET);
 #else
+#define drv c17_kd
     /* `area` is the sink's store; the caller's buffer is the last n octets of
      * `stream` so that an over-read leaves the object */
-    c17_drv_init(&drv, in.script, area, NMAX, true, nn, in.hard_err, 0);
+    c17_snk_init(in.script, area, NMAX, true, nn, in.hard_err, 0);
     Sink snk;
-    c17_sink(&snk, &drv, OCTET);
+    c17_sink(&snk, OCTET);
     const unsigned char *const buf = stream + (NMAX - nn);
 #endif
 
